@@ -628,6 +628,19 @@ R_<TG_, TA_>::applyRequest(Control& control,
 			_core.registry.requestImmediate(request);
 			_apex.deepForwardActive(control, {request.type, index, request.destination});
 		}
+
+#if HFSM2_TRANSITION_HISTORY_AVAILABLE()
+		// sub-states picked while a select / utility / random evaluation was reported are activated
+		// by this request just as well: whatever it is about to enter and nobody has claimed yet is its
+		if (index != INVALID_SHORT && _core.registry.isActive())
+			for (StateID stateId = 0; stateId < StateList::SIZE; ++stateId)
+				if (_core.transitionTargets[stateId] == INVALID_SHORT &&
+					_core.registry.isPendingEnter(stateId))
+				{
+					_core.transitionTargets[stateId] = index;
+				}
+#endif
+
 		break;
 
 	case TransitionType::SCHEDULE:
